@@ -130,13 +130,23 @@ impl World {
                 // whatever the application has not collected yet is collected before the power goes
                 pre_downlinks = self.dut.take_downlinks();
                 let before = self.dut.snapshot().and_then(|s| s.session);
+                // nb, every other time: the application applies its settings to the fresh device first and installs
+                // the session last (both orders are legitimate)
+                let settings_first = idx % 2 == 1 && self.env.borrow().cfg.frontend == Frontend::Nb;
                 match self.dut.session_json() {
-                    Some(json) => match self.dut.restore_from_json(&json) {
+                    Some(json) => match {
+                        if settings_first {
+                            self.env.borrow_mut().restore_settings_first = Some((dr, adr));
+                        }
+                        self.dut.restore_from_json(&json)
+                    } {
                         Ok(()) => {
                             // the application restores its own settings
-                            let _ = self.dut.set_dr(dr);
-                            if !adr {
-                                let _ = self.dut.set_adr(false);
+                            if !settings_first {
+                                let _ = self.dut.set_dr(dr);
+                                if !adr {
+                                    let _ = self.dut.set_adr(false);
+                                }
                             }
                             let after = self.dut.snapshot().and_then(|s| s.session);
                             let json2 = self.dut.session_json();
